@@ -423,12 +423,37 @@ impl SyntaxTemplate {
         })
     }
 
+    fn mentions_pattern_variable(
+        &self,
+        substitutions: &HashMap<String, (Datum, Vec<Datum>)>,
+    ) -> bool {
+        match &self.data {
+            SyntaxTemplateBody::Pair(list) => list
+                .clone()
+                .into_pair_iter()
+                .any(|item| item.get_inside().0.mentions_pattern_variable(substitutions)),
+            SyntaxTemplateBody::Vector(vec) => vec
+                .iter()
+                .any(|element| element.0.mentions_pattern_variable(substitutions)),
+            SyntaxTemplateBody::Identifier(var) => substitutions.contains_key(var),
+            _ => false,
+        }
+    }
+
     fn substitute_template_element(
         template_element: &SyntaxTemplateElement,
         substitutions: &HashMap<String, (Datum, Vec<Datum>)>,
     ) -> Result<Vec<Datum>, SchemeError> {
         match template_element {
             SyntaxTemplateElement(sub_template, true) => {
+                // repetition is driven by the items matched by the pattern variables of the
+                // sub-template: without any, nothing would ever end it
+                if !sub_template.mentions_pattern_variable(substitutions) {
+                    return located_error!(
+                        SyntaxError::UnexpectedTemplate(sub_template.clone()),
+                        sub_template.location
+                    );
+                }
                 let mut result = sub_template.substitude(substitutions)?;
                 let mut suffix_item_index = 0;
                 while let Some(item) =
